@@ -144,7 +144,7 @@ PROPERTIES["C11"] = dict(
 PROPERTIES["C13"] = dict(
     explanation="symx executes Diagnostics(false) and Diagnostics(true) on the same symbolic conflicts (groupConflicts, addSimilarConflict, conflict.String, pathString, node.String from SSA) "
                 "and compares the two reports location by location; counts are parsed from the real messages.",
-    bounds=dict(quick="<=3 conflicts (2 files, 2 nil sources, two conflict styles) and <=4 conflicts in one file (2 nil sources: two groups with absorbed members), symbolic offsets (every sort order)", thorough="<=4 conflicts with all dimensions, <=5 in one file"),
+    bounds=dict(quick="<=3 conflicts (2 files, 2 nil sources, two conflict styles) and <=4 conflicts in one file (2 nil sources: two groups with absorbed members), symbolic offsets (every sort order)", thorough="<=4 conflicts with all dimensions, <=4 in one file (5 in one file did not finish in 30 minutes and is not registered)"),
     outside=["the pretty-printing sentence: PrettyPrintErrorMessage is three regexp.ReplaceAllString calls with capture groups; symbolic text through the regexp VM is out of reach "
              "(see DESIGN.md section 4, C13 and section 6 item 4: by inspection it drops the double quotes around positions)",
              "single-assertion conflicts without a producer position"],
@@ -153,7 +153,7 @@ PROPERTIES["C13"] = dict(
         dict(pkg="diagnostic", files=["diagnostic/zz_verif_c11.go", "diagnostic/zz_verif_c14.go", "diagnostic/zz_verif_c04k1.go"], entry="Harness_C13",
              quick=dict(params=dict(N=3)), thorough=dict(params=dict(N=4)), args=dict(sample_every=499)),
         dict(pkg="diagnostic", files=["diagnostic/zz_verif_c11.go", "diagnostic/zz_verif_c14.go", "diagnostic/zz_verif_c04k1.go"], entry="Harness_C13", name="_two_groups",
-             quick=dict(params=dict(N=4, FILES=1, STYLES=1)), thorough=dict(params=dict(N=5, FILES=1, STYLES=1)), args=dict(sample_every=499)),
+             quick=dict(params=dict(N=4, FILES=1, STYLES=1)), thorough=dict(params=dict(N=4, FILES=1, STYLES=1)), args=dict(sample_every=499)),
     ],
 )
 
